@@ -13,7 +13,9 @@
 (* matched destination block - AddRcpt runs the three RewriteRcpt stages  *)
 (* in this order and records the reverse mapping after the last one), a   *)
 (* recipient list and the per-recipient results of the one partial target *)
-(* behind the pipeline.  The design is the same for every scope.          *)
+(* behind the pipeline - or the one result of an atomic (Body-only)       *)
+(* target, which the pipeline fans out over the supplied addresses.  The  *)
+(* design is the same for every scope.                                     *)
 (*                                                                         *)
 (* Deviation "RewriteCollision" (DESIGN section 6 row 9): the reverse map *)
 (* effective -> supplied holds one entry per effective address (last      *)
@@ -23,7 +25,7 @@
 (***************************************************************************)
 EXTENDS PipeStatusObs, TLC, SequencesExt, Json
 
-CONSTANTS MaxList, StSet, Scopes, Devs, Gen
+CONSTANTS MaxList, StSet, Scopes, Atomic, Devs, Gen
 
 VARIABLES cfg, pc, lst, st, idx, calls, obs, devs, hist
 
@@ -35,7 +37,10 @@ RwChoices(x) == {<<x>>} \cup {<<e>> : e \in Eff \ {x}} \cup
 Lists == UNION {[1..n -> Supplied] : n \in 1..MaxList}
 InPlay(rw, l) == UNION {ToSet(rw[l[i]]) : i \in 1..Len(l)}
 Ext(f, D, dflt) == [x \in D |-> IF x \in DOMAIN f THEN f[x] ELSE dflt]
-StPlans(rw, l) == {Ext(s, Eff, "ok") : s \in [InPlay(rw, l) -> StSet]}
+(* a partial target answers per effective address; an atomic (Body-only) one once *)
+StPlans(rw, l) ==
+  {[st |-> Ext(s, Eff, "ok"), atomic |-> FALSE, body |-> "ok"] : s \in [InPlay(rw, l) -> StSet]}
+    \cup (IF Atomic THEN {[st |-> [e \in Eff |-> "ok"], atomic |-> TRUE, body |-> b] : b \in StSet} ELSE {})
 
 H(e) == IF Gen THEN Append(hist, e) ELSE hist
 
@@ -73,12 +78,18 @@ OrigOf(cs, e) ==          \* last supplied address x # e that produced e ("" = n
   ELSE LET c == cs[Len(cs)] IN
        IF c.e = e /\ c.x # e THEN c.x ELSE OrigOf(SubSeq(cs, 1, Len(cs) - 1), e)
 
+(* msgpipeline.BodyNonAtomic: a partial target's statuses are translated back; the  *)
+(* Body error of an atomic target is reported for every address the client supplied *)
 Exp(D) ==
+  IF st.atomic
+  THEN IF st.body = "ok" THEN <<>>
+       ELSE [i \in 1..Len(calls) |-> [k |-> calls[i].x, v |-> st.body]]
+  ELSE
   [i \in 1..Len(calls) |->
      [k |-> IF "RewriteCollision" \in D
             THEN (IF OrigOf(calls, calls[i].e) # "" THEN OrigOf(calls, calls[i].e) ELSE calls[i].e)
             ELSE calls[i].x,
-      v |-> st[calls[i].e]]]
+      v |-> st.st[calls[i].e]]]
 Expected == Exp(Devs)
 
 SameBag(a, b) == /\ Len(a) = Len(b)
